@@ -291,6 +291,43 @@ fn sigmf_orders(rep: &mut Report) {
             r => viol(rep, "SigMFSource", "archive", format!("{case}: read back as {r:?}"), case),
         }
     }
+    // Unrelated members with names close to the recording's, before and after
+    // it; and the recording inside a directory of the archive.
+    let near = [
+        "backup/rec.sigmf-data",
+        "old/backup/rec.sigmf-data",
+        "rec.sigmf-data.bak",
+        "xrec.sigmf-data",
+        "rec.sigmf-datax",
+        "rec.sigmf",
+        "REC.SIGMF-DATA",
+        "rec.sigmf-meta.orig",
+        "backup/rec.sigmf-meta.txt",
+        "other.sigmf-data",
+    ];
+    for extra in near {
+        for (before, dirprefix) in [(true, ""), (false, ""), (true, "capture/")] {
+            let mname = format!("{dirprefix}rec.sigmf-meta");
+            let dname = format!("{dirprefix}rec.sigmf-data");
+            let junk = vec![0x5au8; 44];
+            let mut ms: Vec<(&str, &[u8], u8)> = vec![(&mname, meta.as_bytes(), b'0'), (&dname, &bytes[..], b'0')];
+            if before {
+                ms.insert(0, (extra, &junk[..], b'0'));
+            } else {
+                ms.push((extra, &junk[..], b'0'));
+            }
+            let tar = crate::crashx::make_tar(&ms);
+            let path = dir.join("arch2.sigmf");
+            std::fs::write(&path, tar).unwrap();
+            rep.evaluations += 1;
+            rep.distinct_nontrivial += 1;
+            let case = json!({"what":"sigmf","kind":"archive-near-names","extra": extra, "before": before, "dir": dirprefix});
+            match read_all(&path) {
+                Ok(v) if v == data => {}
+                r => viol(rep, "SigMFSource", "archive", format!("{case}: read back as {r:?}"), case),
+            }
+        }
+    }
 }
 
 // ---------------------------------------------------------------------------
